@@ -392,6 +392,18 @@ def _corpus() -> list[tuple[dict[str, Any], list[list[Any]]]]:
                 else:
                     sc += [["open", m["name"], 1]] + [["send", k] for k in range(len(m["steps"]))] + [["close"]]
             out.append(({"methods": ms}, sc))
+    # zero-copy echo: a "wide" exchange whose output re-uses its input's buffers in another column layout, with inputs
+    # large enough (>= 128 KiB per column) to travel through shared memory on the shm transport.  The expected data id is
+    # the digest of the swapped input, computed here from the input values alone.
+    for rows in (9, 20_000, 40_000):
+        steps = []
+        n = 3
+        for k in range(n):
+            a, c = svcgen.wide_input_values(k, rows)
+            steps.append({"logs": [L(f"s{k}")] if k == 1 else [], "act": {"emit": {"id": svcgen.wide_digest(c, a), "rows": rows, "alias": True}}, "post": []})
+        mw = {"name": f"w{rows}", "kind": "exchange", "header": False, "wide": True, "init_logs": [], "init": "ok", "steps": steps}
+        scw: list[list[Any]] = [["open", mw["name"], 1]] + [["send", k, {"wide_rows": rows}] for k in range(n)] + [["close"]]
+        out.append(({"methods": [mw]}, scw))
     return out
 
 
